@@ -9,6 +9,7 @@ package main
 
 import (
 	"context"
+	"errors"
 	"fmt"
 	"math/rand"
 	"os"
@@ -17,6 +18,7 @@ import (
 	"strconv"
 	"strings"
 	"sync"
+	"sync/atomic"
 	"time"
 
 	"github.com/mark3labs/flyt"
@@ -44,17 +46,18 @@ type BatchCfg struct {
 	Sched    string // "script" (follow release order), "random", "free", "barrier"
 	CtxKind  string
 	GenSeed  string
-	ModeSet  bool  // error-handling mode was set explicitly
-	Barrier  []int // barrier schedule: the items (1-based) that wait for each other; all others return at once
-	ErrItems []int // items (1-based) that prep hands over as error Results (they are items like any other)
-	After    bool  // the same node object performs another run afterwards; the lists handed to post are looked at again
-	WarmC    int   // > 0: the same node object first performs a run with this concurrency, then is reconfigured
-	WarmN    int   // > 0: ... and with this retry budget
-	PrepN    bool  // the node is constructed with another retry budget; its own prep callback sets the real one
-	PrepC    bool  // ... with another concurrency level
-	PostBE   bool  // post fails with an empty *flyt.BatchError (the library's own aggregate type) as its error value
-	NilItem  int   // > 0: this item is a Result holding nil (it is processed like any other item)
-	Procs    int   // > 0: run the scenario with GOMAXPROCS limited to this value
+	ModeSet  bool   // error-handling mode was set explicitly
+	Barrier  []int  // barrier schedule: the items (1-based) that wait for each other; all others return at once
+	ErrItems []int  // items (1-based) that prep hands over as error Results (they are items like any other)
+	After    bool   // the same node object performs another run afterwards; the lists handed to post are looked at again
+	WarmC    int    // > 0: the same node object first performs a run with this concurrency, then is reconfigured
+	WarmN    int    // > 0: ... and with this retry budget
+	PrepN    bool   // the node is constructed with another retry budget; its own prep callback sets the real one
+	PrepC    bool   // ... with another concurrency level
+	DupKind  string // "" or: all items carry the same value of this kind (scenario of counted facts, family batchdup)
+	PostBE   bool   // post fails with an empty *flyt.BatchError (the library's own aggregate type) as its error value
+	NilItem  int    // > 0: this item is a Result holding nil (it is processed like any other item)
+	Procs    int    // > 0: run the scenario with GOMAXPROCS limited to this value
 }
 
 func parseBatchCfg(m map[string]any) BatchCfg {
@@ -63,7 +66,7 @@ func parseBatchCfg(m map[string]any) BatchCfg {
 		PostErr: asBool(m["posterr"]), Gated: asBool(m["gated"]), Strict: asBool(m["strict"]),
 		Shape: asStr(m["shape"]), ExSty: asStr(m["exsty"]), Via: asStr(m["via"]), Sched: asStr(m["sched"]),
 		CtxKind: asStr(m["ctxkind"]), GenSeed: asStr(m["genseed"]), WarmC: asInt(m["warmc"]), Procs: asInt(m["procs"]), After: asBool(m["after"]), WarmN: asInt(m["warmn"]),
-		PrepN: asBool(m["prepn"]), NilItem: asInt(m["nilitem"]), PrepC: asBool(m["prepc"]), PostBE: asBool(m["postbe"])}
+		PrepN: asBool(m["prepn"]), NilItem: asInt(m["nilitem"]), PrepC: asBool(m["prepc"]), PostBE: asBool(m["postbe"]), DupKind: asStr(m["dupkind"])}
 	for _, a := range asList(m["barrier"]) {
 		c.Barrier = append(c.Barrier, asInt(a))
 	}
@@ -114,7 +117,7 @@ func (c BatchCfg) toJSON() map[string]any {
 	return map[string]any{"N": c.N, "n": c.Items, "c": c.C, "stopmode": c.StopMode, "w": c.W, "fb": c.Fb, "ctx0": c.Ctx0,
 		"cancel": c.Cancel, "acts": acts, "outs": outs, "preperr": c.PrepErr, "posterr": c.PostErr, "gated": c.Gated,
 		"strict": c.Strict, "shape": c.Shape, "exsty": c.ExSty, "via": c.Via, "sched": c.Sched, "ctxkind": c.CtxKind, "genseed": c.GenSeed,
-		"barrier": bar, "warmc": c.WarmC, "erritems": eit, "procs": c.Procs, "after": c.After, "warmn": c.WarmN, "prepn": c.PrepN, "nilitem": c.NilItem, "prepc": c.PrepC, "postbe": c.PostBE}
+		"barrier": bar, "warmc": c.WarmC, "erritems": eit, "procs": c.Procs, "after": c.After, "warmn": c.WarmN, "prepn": c.PrepN, "nilitem": c.NilItem, "prepc": c.PrepC, "postbe": c.PostBE, "dupkind": c.DupKind}
 }
 
 // ---- script ----------------------------------------------------------------
@@ -998,4 +1001,80 @@ func runBatchScenario(cfg BatchCfg, sc *BatchScript, seed int64) []Event {
 		b.events = append(b.events, Event{"ev": "stuck"})
 	}
 	return b.events
+}
+
+// ---------------------------------------------------------------------------
+// items that are equal to each other are items all the same (family batchdup: counted facts)
+// ---------------------------------------------------------------------------
+
+var dupPtr = &struct{ A int }{7}
+
+func runBatchDup(cfg BatchCfg) []Event {
+	mk := func() any {
+		switch cfg.DupKind {
+		case "int":
+			return 5
+		case "string":
+			return "same"
+		case "nil":
+			return nil
+		case "ptr":
+			return dupPtr // the very same pointer in every item
+		case "empty":
+			return struct{}{}
+		case "errres":
+			return nil
+		}
+		return []int{1} // equal, not comparable
+	}
+	var execs, posts, items, slots, okslots int32
+	shared := errors.New("one error value shared by all items")
+	b := flyt.NewBatchNode().
+		WithPrepFunc(func(ctx context.Context, s *flyt.SharedStore) ([]flyt.Result, error) {
+			l := make([]flyt.Result, cfg.Items)
+			for i := range l {
+				if cfg.DupKind == "errres" {
+					l[i] = flyt.NewErrorResult(shared)
+				} else {
+					l[i] = flyt.NewResult(mk())
+				}
+			}
+			return l, nil
+		}).
+		WithExecFunc(func(ctx context.Context, r flyt.Result) (flyt.Result, error) {
+			atomic.AddInt32(&execs, 1)
+			return flyt.NewResult("done"), nil
+		}).
+		WithPostFunc(func(ctx context.Context, s *flyt.SharedStore, a, x []flyt.Result) (flyt.Action, error) {
+			atomic.AddInt32(&posts, 1)
+			atomic.StoreInt32(&items, int32(len(a)))
+			atomic.StoreInt32(&slots, int32(len(x)))
+			for _, r := range x {
+				if !r.IsError() && r.Value() == "done" {
+					atomic.AddInt32(&okslots, 1)
+				}
+			}
+			return flyt.DefaultAction, nil
+		}).
+		WithBatchConcurrency(cfg.C).WithBatchErrorHandling(!cfg.StopMode)
+	ev := Event{"ev": "dupfacts", "hung": false, "iserr": false, "panicked": false}
+	done := make(chan struct{})
+	go func() {
+		defer close(done)
+		defer func() {
+			if recover() != nil {
+				ev["panicked"] = true
+			}
+		}()
+		_, err := flyt.Run(context.Background(), b, flyt.NewSharedStore())
+		ev["iserr"] = err != nil
+	}()
+	select {
+	case <-done:
+	case <-time.After(4 * time.Second):
+		return []Event{{"ev": "dupfacts", "hung": true, "iserr": false, "panicked": false, "execs": int(atomic.LoadInt32(&execs)), "posts": 0, "items": 0, "slots": 0, "okslots": 0}}
+	}
+	ev["execs"], ev["posts"] = int(atomic.LoadInt32(&execs)), int(atomic.LoadInt32(&posts))
+	ev["items"], ev["slots"], ev["okslots"] = int(atomic.LoadInt32(&items)), int(atomic.LoadInt32(&slots)), int(atomic.LoadInt32(&okslots))
+	return []Event{ev}
 }
